@@ -66,11 +66,32 @@ theorem c02_borders_zero_id_witness :
 
 /-! ## eval tree and result loop -/
 
+
 /-- **evalTree_denotes** for every query tree, direction and borders. -/
 theorem c02_evalTree_denotes (idx : Index) (hwf : WF idx) (rev : Bool) (lo hi : Nat) (q : Query) :
     SortedBy rev (evalTree idx rev lo hi q) ∧
     ∀ v, v ∈ evalTree idx rev lo hi q ↔ (lo ≤ v ∧ v ≤ hi ∧ docMatches q (docAt idx v) = true) :=
   evalTree_denotes idx hwf rev lo hi q
+
+/-- **Every node's output stays inside the borders, the empty pair included.**  Whatever the query tree (NOT at the
+root, NOT under OR, ...), direction and index: each yielded LID lies in `[minLID, maxLID]`; when `maxLID < minLID` -
+what `getLIDsBorders` returns (`maxLID = minLID - 1`) for a window that falls into a hole in time inside the
+fraction - the tree yields nothing.  In particular `rangeNode` (the generator under every NOT) is empty then; the
+Go-typed `nodeRange` agrees for these borders by `c02_range_wrap_unreachable`. -/
+theorem c02_evalTree_within_borders (idx : Index) (hwf : WF idx) (rev : Bool) (lo hi : Nat) (q : Query) :
+    (∀ v ∈ evalTree idx rev lo hi q, lo ≤ v ∧ v ≤ hi) ∧ (hi < lo → evalTree idx rev lo hi q = []) ∧
+    (hi < lo → rangeNode rev lo hi = []) := by
+  have hd := evalTree_denotes idx hwf rev lo hi q
+  refine ⟨fun v hv => ?_, fun hlt => ?_, fun hlt => ?_⟩
+  · have := (hd.2 v).mp hv; exact ⟨this.1, this.2.1⟩
+  · apply List.eq_nil_iff_forall_not_mem.mpr
+    intro v hv
+    have := (hd.2 v).mp hv
+    omega
+  · apply List.eq_nil_iff_forall_not_mem.mpr
+    intro v hv
+    have := (mem_rangeNode rev lo hi v).mp hv
+    omega
 
 /-- **iterate_correct**: first `limit` IDs without adjacent repetitions; every yielded LID counted. -/
 theorem c02_iterate_correct (tbl : List ID) (limit : Nat) (scanAll : Bool) (lids : List Nat) :
